@@ -509,4 +509,35 @@ def replay(ctx, rec):
         c, s = rec["input"]
         o = obs_two(Point if c == "Point" else Stretch, s)
         return oracle1(1811, [s, o]) != 1, repr(o)
-    return False, "replay of this kind re-runs the stream: use ./check C18 quick"
+    if tag == "fresh":
+        from fractions import Fraction as F
+
+        def t(y):
+            if isinstance(y, list):
+                return tuple(t(z) for z in y)
+            if isinstance(y, str) and "/" in y and y.replace("/", "").replace("-", "").isdigit():
+                return F(y)
+            return y
+        kind, x, w, h = rec["input"]
+        x = t(x)
+        mk = {"size": geom.mk_size, "point": geom.mk_point, "stretch": geom.mk_stretch, "padding": geom.mk_padding,
+              "layout": geom.mk_layout}[kind]
+        bad = []
+        for axis in (True, False):
+            obj, twin = mk(x), mk(x)
+            if kind == "size":
+                ops = [lambda o: o.as_percentage_of(video_width=w if axis else None, video_height=None if axis else h)]
+            elif kind == "layout":
+                ops = [lambda o: o.as_percentage_of(w, h), lambda o: o.fit_to_screen()]
+            else:
+                ops = [lambda o: o.as_percentage_of(w, h)]
+            for op in ops:
+                before = geom.snap(obj)
+                r = impl.call(op, obj)
+                r2 = impl.call(op, twin)
+                same = (isinstance(r, Err) and r == r2) or (isinstance(r, Ok) and isinstance(r2, Ok)
+                                                            and geom.snap(r.v) == geom.snap(r2.v))
+                if geom.snap(obj) != before or not same:
+                    bad.append(repr(before) + " -> " + repr(geom.snap(obj)))
+        return bool(bad), bad[:2]
+    return False, "unknown replay tag"
